@@ -140,11 +140,29 @@ func purgeHelpers(w *World) map[*ssa.Function]bool {
 		if isTestFile(w, fn) {
 			continue
 		}
+		judges, removes := false, false
 		allInstrs(fn, func(in ssa.Instruction) {
-			if c := callOf(in); c != nil && c.StaticCallee() == ce {
-				out[fn] = true
+			c := callOf(in)
+			if c == nil {
+				return
+			}
+			if c.StaticCallee() == ce {
+				judges = true
+			}
+			// ... and removes: a removal primitive of a state (rem / Rem), or a function it was handed
+			if f := c.StaticCallee(); f != nil && (f.Name() == "rem" || f.Name() == "Rem") {
+				removes = true
+			}
+			if c.IsInvoke() && c.Method.Name() == "Rem" {
+				removes = true
+			}
+			if p, ok := c.Value.(*ssa.Parameter); ok && p.Parent() == fn {
+				removes = true
 			}
 		})
+		if judges && removes {
+			out[fn] = true
+		}
 	}
 	// wrappers: a function every Return of which hands back, result for result, what one call of a purge helper
 	// returned (`return Expire(ctx, ..., s.rem)`): the two states' expire methods after the helper was generalised.
@@ -169,14 +187,20 @@ func purgeHelpers(w *World) map[*ssa.Function]bool {
 						return
 					}
 					c, ok := ex.Tuple.(*ssa.Call)
-					if !ok || (call != nil && c != call) || c.Common().StaticCallee() == nil || !out[c.Common().StaticCallee()] {
+					if !ok || (call != nil && c != call) || c.Common().StaticCallee() == nil || !(out[c.Common().StaticCallee()] || c.Common().StaticCallee() == ce) {
 						all = false
 						return
 					}
 					call = c
 				}
 			})
-			if rets > 0 && all {
+			wrapsHelper := false
+			allInstrs(fn, func(in ssa.Instruction) {
+				if c := callOf(in); c != nil && c.StaticCallee() != nil && out[c.StaticCallee()] {
+					wrapsHelper = true
+				}
+			})
+			if rets > 0 && all && wrapsHelper {
 				out[fn] = true
 				changed = true
 			}
